@@ -211,7 +211,12 @@ class SocketDriver(drivers.IrcDriver, drivers.ServersMixin):
             self.eagains = 0 # If we successfully recv'ed, we can reset this.
             lines = self.inbuffer.split(b'\n')
             self.inbuffer = lines.pop()
+            conn = self.conn
             for line in lines:
+                if self.conn is not conn or not self.connected:
+                    # A handler made us reconnect: the remaining lines were
+                    # sent by the server of the connection we just left.
+                    break
                 line = decode_raw_line(line)
 
                 msg = drivers.parseMsg(line)
@@ -237,6 +242,10 @@ class SocketDriver(drivers.IrcDriver, drivers.ServersMixin):
     def reconnect(self, wait=False, reset=True, server=None):
         self._attempt += 1
         self.nextReconnectTime = None
+        # What is buffered was received from / meant for the connection we
+        # are leaving; none of it may leak into the next one.
+        self.inbuffer = b''
+        self.outbuffer = b''
         if self.connected:
             self.onDisconnect()
             drivers.log.reconnect(self.irc.network)
